@@ -172,6 +172,7 @@ type Program struct {
 	ExtraDecl  string // raw declarations appended to the root package's defs.go (scope pollution)
 	ExtraFiles       map[string]string // raw files added to the case as they are
 	InjectorImports  []*Pkg            // packages every injector file imports (so that Injector.After may refer to them by their user alias)
+	ReverseDecls     bool              // declare types, functions and sets in the reverse of the usual order (uses before declarations)
 	WireImport       int    // how user files import wire: 0 plain, 1 under the alias w, 2 dot import
 	UserImportPrefix string // user files import the case's own packages under this prefix + package name (so that package names may collide with the user's identifiers)
 	PairSets   bool   // declare consecutive named sets of a package pairwise: var A, B = wire.NewSet(..), wire.NewSet(..)
